@@ -502,7 +502,8 @@ fn bulk_select1_bmi2(bit_data: &[u64], indices: &[usize]) -> Result<Vec<usize>> 
 
             unsafe {
                 // Use PDEP to extract the nth set bit position
-                let mask = (1u64 << remaining_rank) - 1;
+                // (deposit a single bit onto the nth set bit; remaining_rank is 1-based)
+                let mask = 1u64 << (remaining_rank - 1);
                 let selected_bits = _pdep_u64(mask, word);
 
                 if selected_bits != 0 {
